@@ -130,7 +130,7 @@ CHECKS = {
               "- compared in Coq, observed_arg_agrees_iff) must equal the model's and contents must be those of the task's own "
               "files; extra arguments are handed over as tuple / list / None with kwargs for map, imap, collect(func=), icollect(func=) "
               "and every recorded call is compared in Coq by number, order and kind of its arguments (observed_call_agrees_iff), "
-              "the caller's objects after the call included; the thorough tier repeats this on process pools through a multiprocessing.Manager."),
+              "the caller's objects after the call included; a directed probe maps an explicit selection given as plain file NAMES; the thorough tier repeats this on process pools through a multiprocessing.Manager."),
         note=COMMON_NOTE + " concurrent.futures / threading / multiprocessing (fork, pickling) are modelled by the transition system (hypothesis), exercised by forced "
              "schedules, not verified; real OS scheduling cannot be exhibited by the model; warnings raised on process pools are not counted.",
         technique="Coq proof (invariants by induction over arbitrary action traces of a transition system; explicit bundle model refining the task model) + trace-acceptance correspondence under forced schedules, thread and process pools",
